@@ -523,7 +523,11 @@ func injectCase(e *ev.Env, c *ev.Case, h *helper, a injArgs, class string) {
 			// known root cause: the flash cookie is the raw MessagePack encoding
 			detail["class"] = perr.Class + "/" + class
 			e.Stat("flash_cookie_raw_"+perr.Class, 1)
-			report(c, sigFlashRaw, "response rejected by the strict parser ("+perr.Class+") after "+h.name+" got the value", detail)
+			cause := flashCookieBytes(out)
+			if cause == "" {
+				cause = map[string]string{"header-value-nul": "NUL", "header-value-crlf": "CRLF"}[perr.Class]
+			}
+			report(c, sigFlashRaw+"|"+flashCause(cause), "response rejected by the strict parser ("+perr.Class+") after "+h.name+" got the value", detail)
 			return
 		}
 		report(c, sig, "response rejected by the strict parser ("+perr.Class+") after "+h.name+" got the value", detail)
